@@ -72,6 +72,19 @@ func C10(c *Ctx) int {
 		Features: []string{"deliver"}, MaxDeliver: 3, ExtraTags: tags, NodeRole: role}); err != nil {
 		c.Infraf("%v", err)
 	}
+	// the answer races the events: the host is answered as soon as its request exists, the
+	// boundary listeners' flows are held when they receive their action
+	var two []*prog.Program
+	for _, p := range ps {
+		if p.Name == "bnd_ii" || p.Name == "bnd_in" || p.Name == "bnd_i" {
+			two = append(two, p)
+		}
+	}
+	if err := c.TokenGameRound(fs, two, RoundOpts{Label: "racing-answer", MaxSteps: 3, MaxPerProg: 0, Reps: 4,
+		Features: []string{"deliver"}, MaxDeliver: 2, ExtraTags: tags, NodeRole: role,
+		Job: JobOpts{Perturb: 3, EagerAnswer: true, LingerMs: -1, HoldPoints: []string{"flow.action"}}}); err != nil {
+		c.Infraf("%v", err)
+	}
 	c.Extra["programs"] = len(ps)
 	return c.Finish("model_checking", "tasks and sub-processes with 1..2 boundary events of either kind; TLC enumerates interleavings of {event delivered, host answered} including event before activation, repeated events, answer after the event; replay + TokenGameTrace (exception flow once / once per event, normal flow never after an interrupting event, completion after the host finished)", false, fs)
 }
